@@ -373,28 +373,56 @@ def r06_7(ctx, counts: dict[str, int]) -> RuleResult:
     """NaN compares false with everything: a sign ladder needs its own NaN arm"""
     res = RuleResult(
         'R06.7', 'NAN-FALLS-THROUGH-SIGN-LADDER',
-        'In the evaluate functions of div, idiv and mod, an if/elif chain that classifies an '
-        'evaluated operand by comparisons with 0 (`x == 0`, `x > 0`, `x < 0`) and ends in a bare '
-        '`else` treats NaN as the remaining sign, because every comparison with NaN is false. '
-        'When the arms return IEEE special values (inf/nan constants) the chain must test NaN '
-        'explicitly (math.isnan on that operand in one of its tests, or a dominating test) — '
-        'otherwise xs:double("NaN") div 0e0 is -INF.')
+        'In the evaluate functions of div, idiv and mod, a ladder that classifies an evaluated '
+        'operand by comparisons with 0 (`x == 0`, `x > 0`, `x < 0`) — an if/elif chain ending in '
+        'a bare `else`, or a run of early-exit `if`s followed by a final return — treats NaN as '
+        'the remaining sign, because every comparison with NaN is false. When the last arm '
+        'returns an IEEE special value (inf/nan constants) the ladder must test NaN explicitly '
+        '(math.isnan on that operand in one of its tests) — otherwise xs:double("NaN") div 0e0 '
+        'is -INF.')
+
+    def ladders(body: list[ast.stmt]):
+        """(tests, last arm statements, anchor) for elif chains with else and early-exit runs"""
+        i = 0
+        while i < len(body):
+            st = body[i]
+            if isinstance(st, ast.If):
+                # elif chain
+                chain = [st]
+                cur = st
+                while len(cur.orelse) == 1 and isinstance(cur.orelse[0], ast.If):
+                    cur = cur.orelse[0]
+                    chain.append(cur)
+                if cur.orelse:
+                    yield [c.test for c in chain], cur.orelse, cur
+                # early-exit run: consecutive ifs without else whose bodies end in return/raise
+                run = []
+                j = i
+                while j < len(body) and isinstance(body[j], ast.If) and not body[j].orelse \
+                        and isinstance(body[j].body[-1], (ast.Return, ast.Raise)):
+                    run.append(body[j])
+                    j += 1
+                if len(run) >= 2 and j < len(body) and isinstance(body[j], ast.Return):
+                    yield [c.test for c in run], [body[j]], body[j]
+                for c in chain:
+                    yield from ladders(c.body)
+                yield from ladders(cur.orelse)
+            else:
+                for fld in ('body', 'orelse', 'finalbody'):
+                    sub = getattr(st, fld, None)
+                    if isinstance(sub, list) and sub and isinstance(sub[0], ast.stmt):
+                        yield from ladders(sub)
+            i += 1
     n = 0
+    seen: set[int] = set()
     for sym in ('div', 'idiv', 'mod'):
         f = _operator_func(ctx, sym)
-        for top in [x for x in walk_local(f.node) if isinstance(x, ast.If)]:
-            chain = []
-            cur: ast.AST = top
-            while isinstance(cur, ast.If):
-                chain.append(cur)
-                cur = cur.orelse[0] if len(cur.orelse) == 1 and isinstance(cur.orelse[0], ast.If) \
-                    else None           # type: ignore[assignment]
-            last = chain[-1]
-            if not last.orelse:
+        for tests, last, anchor in ladders(f.node.body):
+            if id(anchor) in seen:
                 continue
             subjects: dict[str, int] = {}
-            for c in chain:
-                for cmp_ in [y for y in ast.walk(c.test) if isinstance(y, ast.Compare)]:
+            for t in tests:
+                for cmp_ in [y for y in ast.walk(t) if isinstance(y, ast.Compare)]:
                     if len(cmp_.ops) == 1 and isinstance(cmp_.ops[0], (ast.Eq, ast.Gt, ast.Lt, ast.GtE, ast.LtE)) \
                             and isinstance(cmp_.left, ast.Name) \
                             and isinstance(cmp_.comparators[0], ast.Constant) \
@@ -407,26 +435,23 @@ def r06_7(ctx, counts: dict[str, int]) -> RuleResult:
                           and isinstance(y.args[0], ast.Constant)
                           and str(y.args[0].value).lower().strip('+-') in ('inf', 'nan')
                           or isinstance(y, ast.Attribute) and dotted(y) in ('math.inf', 'math.nan')
-                          for st in last.orelse for y in ast.walk(st))
+                          for st in last for y in ast.walk(st))
             if not special:
                 continue
-            # only the outermost If of a chain
-            if any(top is c2.orelse[0] for c2 in walk_local(f.node)
-                   if isinstance(c2, ast.If) and len(c2.orelse) == 1):
-                continue
+            seen.add(id(anchor))
             for subj in ladder:
                 n += 1
                 tests_nan = any(isinstance(y, ast.Call) and dotted(y.func) in ('math.isnan', 'isnan')
                                 and y.args and stmt_text(y.args[0]) == subj
-                                for c in chain for y in ast.walk(c.test))
-                res.instances.append(f'{f.key} [{sym}]: sign ladder on `{subj}` with a bare else '
-                                     f'returning IEEE specials; NaN tested={tests_nan}')
+                                for t in tests for y in ast.walk(t))
+                res.instances.append(f'{f.key} [{sym}]: sign ladder on `{subj}` whose last arm '
+                                     f'returns IEEE specials; NaN tested={tests_nan}')
                 if tests_nan:
                     res.ok()
                 else:
-                    res.fail(finding('R06.7', f, last, f'{sym}: NaN takes the else arm',
+                    res.fail(finding('R06.7', f, anchor, f'{sym}: NaN takes the else arm',
                                      f'the ladder on `{subj}` (== 0, > 0, else) of the {sym} operator '
-                                     f'sends a NaN `{subj}` to its else arm: xs:double("NaN") '
+                                     f'sends a NaN `{subj}` to its last arm: xs:double("NaN") '
                                      f'{sym} 0e0 returns an infinity instead of NaN'))
     counts['sign_ladders'] = n
     return res
